@@ -81,7 +81,9 @@ namespace Dune{
       operator bool () const{
         return valid_;
       }
-      void get(){}
+      void get(){
+        valid_ = false;
+      }
     };
   }
 
